@@ -150,7 +150,7 @@ def make(rng=None, kind="3B2", stream="ap", sites=None, n=384, encoding="shank",
         d["imDatPrb_type"] = PRB_TYPE[kind] if not isinstance(kind, int) else kind
         d["imDatPrb_sn"] = 18005116811
         d["imDatPrb_pn"] = "PRB_1_4_0480_1"
-        if kind != "3B1":
+        if kind != "3B1" and port_slot is not None:
             d["imDatPrb_port"] = port_slot[0]       # OneBox ports are numbered from 0
             d["imDatPrb_slot"] = port_slot[1]
     if extra and "imDatPrb_type" in extra:
